@@ -296,18 +296,11 @@ func (c *kase) oracle(runs []*obs) []core.Failure {
 				fmt.Sprintf("provision 1: %s ; provision %d: %s", c.invariantPart(o0), i+2, c.invariantPart(o)))
 		case c.detailed(o) != c.detailed(o0):
 			what := fmt.Sprintf("provision 1: %s ; provision %d: %s", c.detailed(o0), i+2, c.detailed(o))
-			// a difference is attributed to a known map-order dependence only if the config
-			// satisfies that dependence's predicate (Spec.ambRecv / Spec.ambName)
-			switch {
-			case !amb:
-				fail("nondeterministic:redirect-routes", what)
-			case c.ambRecv() && (!c.anyAmbName() || c.redirFacts(o) == c.redirFacts(o0)):
-				fail("map-order:redirect-placement:two-servers-listen-on-the-http-port", what)
-			default:
-				fail("map-order:redirect-address:name-on-two-servers-one-off-the-https-port", what)
-			}
+			// every `range` of phase 1 runs over sorted keys: nothing may depend on map order
+			_ = amb
+			fail("nondeterministic:redirect-routes", what)
 		case c.effTable(o) != c.effTable(o0):
-			fail("map-order:redirect-target:name-covered-by-redirects-to-different-ports",
+			fail("nondeterministic:redirect-route-order",
 				fmt.Sprintf("same redirect routes, different order: provision 1 answers %s ; provision %d answers %s", c.effTable(o0), i+2, c.effTable(o)))
 		}
 	}
